@@ -152,6 +152,24 @@ class Prop(common.PropertyCheck):
                 except Exception as e:
                     if shared is None:
                         shared = 'the inverse of integer-typed data values raised %s' % type(e).__name__
+                # a buffer the caller reuses: the same array object filled with other data values, and an answer the caller edits, then the query again
+                try:
+                    buf = np.array(x[:-1][::7], dtype=float)
+                    ref_lo = np.array(inv.transform_non_affine(buf.copy(), mask_out_of_range=False), dtype=float)
+                    r1 = inv.transform_non_affine(buf, mask_out_of_range=False)
+                    buf[:] = buf[::-1].copy()
+                    r2 = np.array(inv.transform_non_affine(buf, mask_out_of_range=False), dtype=float)
+                    if shared is None and not np.array_equal(r2, ref_lo[::-1]):
+                        shared = 'the inverse of a reused buffer (same array object, other data values) is the answer for its earlier contents'
+                    r3 = inv.transform_non_affine(buf, mask_out_of_range=False)
+                    if isinstance(r3, np.ndarray) and r3.flags.writeable:
+                        r3[...] = -5.0
+                    r4 = np.array(inv.transform_non_affine(buf, mask_out_of_range=False), dtype=float)
+                    if shared is None and not np.array_equal(r4, ref_lo[::-1]):
+                        shared = 'after the caller edited an answer of the inverse, the same query returns the edited values'
+                except Exception as e:
+                    if shared is None:
+                        shared = 'the inverse on a reused buffer raised %s' % type(e).__name__
                 return {'p': bits(p), 's': [bits(v) for v in s], 'x': [bits(v) for v in x], 'shared': shared,
                         'default_inverse_ok': default_ok,
                         'maxerr': float(np.max(np.abs(np.asarray(back) - s[:-1]))), 'inv_mono': bool(np.all(np.diff(invs) >= 0)),
